@@ -23,7 +23,7 @@ def corpus_files():
 
 
 def x_plan(script, mode='file', chunks=None, eof_at=None, heap_seed=None, clock=None, args=(), budget=400000000, pid=0):
-    p = {'id': pid, 'engine': 'X', 'mode': mode, 'script': script, 'args': list(args), 'budget_ticks': budget, 'cpu_s': 60, 'wall_s': 120}
+    p = {'id': pid, 'engine': 'X', 'mode': mode, 'script': script, 'args': list(args), 'budget_ticks': budget, 'cpu_s': 60, 'wall_s': 600}
     if chunks is not None:
         p['chunks'] = chunks
     if eof_at is not None:
@@ -459,7 +459,7 @@ class C18(Check):
         res = empty_result()
         text = case['script']
         no_check = 'check-sat' not in text
-        budget = 20000000 if (no_check and len(text) <= 4096) else 2000000000
+        budget = 20000000 if (no_check and len(text) <= 4096) else 400000000
         flav = case.get('flavour', 'sim')
         plan = x_plan(text, case['mode'], chunks=case.get('chunks'), budget=budget)
         if flav == 'asan':
